@@ -433,7 +433,7 @@ PROPS["C01"] = {
     "theorems": ["C01_tag_known", "C01_tag_fragment", "C01_tag_pattern", "C01_tag_unresolved", "C01_tag_bound", "C01_tag_member", "C01_tag_member_shape",
                  "C01_valueless_true", "C01_string_value_cleaned", "C01_expr_value", "C01_spread_plain", "C01_spread_merge",
                  "C01_no_attrs", "C01_assemble_merge", "C01_tag_member_hyphen", "C01_tag_member_quiet", "C01_tag_member_object_reported",
-                 "C01_plain_attrs_exactly_written", "attrStep_plain_kv"],
+                 "C01_plain_attrs_exactly_written", "attrStep_plain_kv", "C01_plain_element_props_object"],
     "extra_modules": ["VueJsx.Props.C01b"],
     "cases": c01_cases,
     "post": literal_roundtrip_post,
